@@ -2753,6 +2753,11 @@ func (s *Server) serveConnCounted(c net.Conn, countConcurrency bool) error {
 				bw = acquireWriter(ctx)
 			}
 			if err = writeResponse(ctx, bw); err != nil {
+				// The responses to earlier pipelined requests may still sit in
+				// the buffer (the flush below is skipped while another request
+				// is waiting): they are complete and must not be lost together
+				// with the response that failed.
+				bw.Flush() //nolint:errcheck
 				break
 			}
 
